@@ -1,4 +1,5 @@
 import D2V.Model.Clip
+import D2V.Proofs.RoundGo
 import Mathlib.Tactic.Linarith
 import Mathlib.Tactic.FieldSimp
 import Mathlib.Tactic.Ring
@@ -13,34 +14,6 @@ import Mathlib.Tactic.NormNum
   Curved outlines and the engines' routes are evaluated (Drv/C20.lean), not proved. -/
 namespace D2V.Clip
 open D2V.Lay
-
-theorem roundGo_near (x : Rat) : x - 1 / 2 ≤ roundGo x ∧ roundGo x ≤ x + 1 / 2 := by
-  unfold roundGo
-  split
-  · have h1 := Rat.floor_le (x + 1 / 2)
-    have h2 := Rat.lt_floor_add_one (x + 1 / 2)
-    push_cast at h2
-    constructor <;> linarith
-  · have h1 := Rat.floor_le (-x + 1 / 2)
-    have h2 := Rat.lt_floor_add_one (-x + 1 / 2)
-    push_cast at h2
-    constructor <;> linarith
-
-/-- `math.Round` leaves integers alone: with integer coordinates the cut is exact -/
-theorem roundGo_int (n : Int) : roundGo (n : Rat) = n := by
-  unfold roundGo
-  have key : ∀ m : Int, ((m : Rat) + 1 / 2).floor = m := by
-    intro m
-    apply Int.le_antisymm
-    · have h := Rat.floor_le ((m : Rat) + 1 / 2)
-      have h' : (((m : Rat) + 1 / 2).floor : Rat) < ((m + 1 : Int) : Rat) := by push_cast; linarith
-      have := (Int.cast_lt (R := Rat)).mp h'
-      omega
-    · rw [Rat.le_floor_iff]; linarith
-  split
-  · rw [key]
-  · have : (-(n : Rat) + 1 / 2) = (((-n : Int) : Rat) + 1 / 2) := by push_cast; ring
-    rw [this, key]; push_cast; ring
 
 /-- Cramer's parameters solve both line equations -/
 theorem cramer_solves (u0 u1 v0 v1 : Pt) (c : Cramer) (h : cramer u0 u1 v0 v1 = some c) :
@@ -137,5 +110,33 @@ theorem onBorder_mono (b : Box) (t1 t2 : Rat) (h : t1 ≤ t2) (p : Pt) (hb : b.o
   refine ⟨⟨by linarith, by linarith, by linarith, by linarith⟩, ?_⟩
   intro ⟨a1, a2, a3, a4⟩
   exact hn ⟨by linarith, by linarith, by linarith, by linarith⟩
+
+/-! #### witnesses of the open findings (replayed on d2 through d2lib.Compile; boxes and points as exported) -/
+
+/-- dagre, `a: {b}; a -> a`: the self loop of a container runs between its descendants and starts strictly
+    inside the container (on the child's border), 83 px from the container's border -/
+theorem C20_cx_container_selfloop :
+    ¬ (Box.onBorder ⟨10, 20, 143, 126⟩ 1 ⟨93, 66551 / 1000⟩) ∧ Box.onBorder ⟨40, 50, 53, 66⟩ 1 ⟨93, 66551 / 1000⟩ := by
+  unfold Box.onBorder Box.containsTol Box.strictlyInsideTol Box.right Box.bottom
+  norm_num
+
+/-- ELK, `a: {style.multiple: true}; a -> a`: the loop starts 5 px left of the box (x = 57, box starts at 62) and
+    the `multiple` copy lies to the right/top, so the start is on no border of the visual extent -/
+theorem C20_cx_multiple_selfloop_elk :
+    ¬ (Box.onBorder ⟨62, 22, 53, 66⟩ 1 ⟨57, 42333 / 1000⟩) ∧
+      ¬ (Box.onBorder (Box.translate ⟨62, 22, 53, 66⟩ 10 (-10)) 1 ⟨57, 42333 / 1000⟩) := by
+  unfold Box.onBorder Box.containsTol Box.strictlyInsideTol Box.right Box.bottom Box.translate
+  norm_num
+
+/-- ELK, `a: {label.near: outside-right-bottom}; a -- a`: the loop starts 6.5 px left of the box -/
+theorem C20_cx_outside_label_selfloop_elk : ¬ (Box.onBorder ⟨62, 12, 53, 66⟩ 1 ⟨111 / 2, 34⟩) := by
+  unfold Box.onBorder Box.containsTol Box.strictlyInsideTol Box.right Box.bottom
+  norm_num
+
+/-- dagre, `direction: right; n7: {label.near: bottom-left; height: 254}; n7 -> n1: "a longer label here"; n6 -> n1`:
+    the connection ends 18 px above its (plain rectangular) destination -/
+theorem C20_cx_dagre_spacing_detached : ¬ (Box.onBorder ⟨348, 235, 62, 66⟩ 1 ⟨348, 217⟩) := by
+  unfold Box.onBorder Box.containsTol Box.strictlyInsideTol Box.right Box.bottom
+  norm_num
 
 end D2V.Clip
